@@ -2,7 +2,8 @@ package codec
 
 // C21 Numeric encodings round-trip exactly.
 // Oracles: decode∘encode = id; independent .NET-BigInteger reference encoder (minimality);
-// exact I128 range; native varuint range; balance storage item version rule.
+// exact I128 range; native varuint range; balance storage item version rule; token balances over the
+// full bigint range (storage round trip or loud refusal, accessors against math/big, hand-built items).
 
 import (
 	"bytes"
@@ -250,5 +251,307 @@ func TestC21_BalanceStorageItem(t *testing.T) {
 			t.Fatalf("balance accessors disagree for %s", bal.String())
 		}
 		ev.Case(frac != 0, fmt.Sprintf("bal:%d.%09d", intPart, frac))
+	})
+}
+
+// ---------------------------------------------------------------------------------------------
+// NativeTokenBalance over its full range. A balance is a non-negative integer of 1e-9 units held in
+// an unbounded bigint.Int. The storage item has two forms: version 0 = the whole-token part as a
+// uint64 (only for balances without a fractional part), version 1 = the shortest two's complement of
+// the whole balance. A value that the chosen form cannot hold must be refused loudly (panic/error);
+// storing some other value silently is the violation.
+
+var (
+	c21Scale = big.NewInt(states.ScaleFactor)
+	c21Two64 = new(big.Int).Lsh(big.NewInt(1), 64)
+)
+
+// c21GenBalance draws a balance >= 0 from boundary-heavy pools.
+func c21GenBalance(t *rapid.T) *big.Int {
+	d := func(label string, r int) *big.Int { return big.NewInt(int64(rapid.IntRange(-r, r).Draw(t, label))) }
+	whole := new(big.Int)
+	switch rapid.IntRange(0, 9).Draw(t, "wholeKind") {
+	case 0:
+		whole.SetUint64(rapid.Uint64().Draw(t, "w64"))
+	case 1:
+		whole.SetUint64(uint64(rapid.IntRange(0, 5).Draw(t, "wSmall")))
+	case 2: // 2^64 +- k
+		whole.Add(c21Two64, d("wd", 3))
+	case 3: // j*2^64 + low: the low 64 bits alone look like an ordinary balance
+		whole.Mul(c21Two64, big.NewInt(int64(rapid.IntRange(1, 5).Draw(t, "j"))))
+		if rapid.Bool().Draw(t, "lowSmall") {
+			whole.Add(whole, big.NewInt(int64(rapid.IntRange(0, 5).Draw(t, "low"))))
+		} else {
+			whole.Add(whole, new(big.Int).SetUint64(rapid.Uint64().Draw(t, "low64")))
+		}
+	case 4: // 2^k +- d, k up to 130
+		whole.Lsh(big.NewInt(1), uint(rapid.IntRange(1, 130).Draw(t, "k")))
+		whole.Add(whole, d("wd", 2))
+	case 5: // max uint64 - k
+		whole.SetUint64(^uint64(0) - uint64(rapid.IntRange(0, 3).Draw(t, "wmax")))
+	case 6: // balance near 2^128
+		whole.Quo(new(big.Int).Lsh(big.NewInt(1), 128), c21Scale)
+		whole.Add(whole, d("wd", 2))
+	case 7: // uniform up to 20 bytes
+		whole.SetBytes(rapid.SliceOfN(rapid.Byte(), 0, 20).Draw(t, "wBytes"))
+	default: // direct balance values around powers of two and around (2^64)*1e9
+		b := new(big.Int)
+		if rapid.Bool().Draw(t, "pow") {
+			b.Lsh(big.NewInt(1), uint(rapid.IntRange(1, 200).Draw(t, "bk")))
+		} else {
+			b.Mul(c21Two64, c21Scale)
+			if rapid.Bool().Draw(t, "max64") {
+				b.Sub(b, c21Scale) // MaxUint64 * 1e9
+			}
+		}
+		b.Add(b, d("bd", 3))
+		if b.Sign() < 0 {
+			b.SetInt64(0)
+		}
+		return b
+	}
+	if whole.Sign() < 0 {
+		whole.SetInt64(0)
+	}
+	var frac uint64
+	switch rapid.IntRange(0, 5).Draw(t, "fracKind") {
+	case 0, 1, 2:
+	case 3:
+		frac = 1
+	case 4:
+		frac = states.ScaleFactor - 1
+	default:
+		frac = rapid.Uint64Range(0, states.ScaleFactor-1).Draw(t, "frac")
+	}
+	b := new(big.Int).Mul(whole, c21Scale)
+	return b.Add(b, new(big.Int).SetUint64(frac))
+}
+
+// c21Loud runs f and reports whether it panicked (the "must" functions refuse by panicking).
+func c21Loud(f func()) (refused bool, why interface{}) {
+	defer func() {
+		if r := recover(); r != nil {
+			refused, why = true, r
+		}
+	}()
+	f()
+	return false, nil
+}
+
+const c21BalRule = "NativeTokenBalance over the full range: whole-token part uniform uint64 / small / 2^64±k / j*2^64+low / 2^k±d (k<=130) / MaxUint64-k / near 2^128/1e9 / uniform <=20 bytes, balances 2^k±d (k<=200) and 2^64*1e9±d, MaxUint64*1e9±d, each with fractional part 0 / 1 / 1e9-1 / uniform; MustToStorageItem -> ToArray -> Deserialization -> NativeTokenBalanceFromStorageItem must return the same value with the expected version (0 iff no fractional part) or refuse loudly, refusal being allowed only for a non-fractional balance whose whole part is >= 2^64; ToInteger/FloatPart/IsFloat/MustToInteger64/FromInteger/ToBigInt against math/big; hand-built version 0/1/other storage items (value length 0..12 / arbitrary two's complement incl. negative and non-minimal) decode to the reference value or an error; non-trivial = whole part >= 2^64-3, a fractional part, or a hand-built item that is rejected or non-canonical"
+
+func TestC21_BalanceFullRange(t *testing.T) {
+	ev := harn.For("C21").Rule(c21BalRule)
+	ev.Floor("bal:whole>=2^64:nofrac", "bal", 0.10)
+	ev.Floor("bal:whole>=2^64:frac", "bal", 0.05)
+	ev.Floor("bal:whole<2^64:nofrac", "bal", 0.10)
+	ev.Floor("bal:whole<2^64:frac", "bal", 0.05)
+	harn.Check(t, 30000, 2000000, func(t *rapid.T) {
+		b := c21GenBalance(t)
+		whole, frac := new(big.Int).QuoRem(b, c21Scale, new(big.Int))
+		fits := whole.IsUint64()
+		hasFrac := frac.Sign() != 0
+		bal := states.NativeTokenBalance{Balance: bigint.New(new(big.Int).Set(b))}
+		cls := "bal:whole<2^64"
+		if !fits {
+			cls = "bal:whole>=2^64"
+		}
+		if hasFrac {
+			cls += ":frac"
+		} else {
+			cls += ":nofrac"
+		}
+		ev.Class("bal")
+		ev.Class(cls)
+
+		// accessors against math/big
+		if got := bal.ToInteger().BigInt(); got.Cmp(whole) != 0 {
+			t.Fatalf("balance %s: ToInteger() = %s, reference %s", b, got, whole)
+		}
+		if bal.FloatPart() != frac.Uint64() || bal.IsFloat() != hasFrac {
+			t.Fatalf("balance %s: FloatPart() = %d IsFloat() = %v, reference fractional part %s", b, bal.FloatPart(), bal.IsFloat(), frac)
+		}
+		if bal.ToBigInt().Cmp(b) != 0 || bal.Balance.BigInt().Cmp(b) != 0 {
+			t.Fatalf("balance %s changed by its accessors: now %s", b, bal.ToBigInt())
+		}
+		var i64 uint64
+		refused, why := c21Loud(func() { i64 = bal.MustToInteger64() })
+		switch {
+		case refused && fits:
+			t.Fatalf("balance %s: MustToInteger64 refused (%v) although the whole part %s fits 64 bits", b, why, whole)
+		case !refused && (!fits || i64 != whole.Uint64()):
+			t.Fatalf("balance %s: MustToInteger64() = %d silently, but the whole-token part is %s", b, i64, whole)
+		}
+		if refused {
+			ev.Class("bal:int64:refused")
+		}
+
+		// storage item round trip
+		var item *states.StorageItem
+		refused, why = c21Loud(func() { item = bal.MustToStorageItem() })
+		if refused {
+			ev.Class("bal:item:refused")
+			if hasFrac || fits {
+				t.Fatalf("balance %s (whole part %s, fractional part %s) is representable but MustToStorageItem refused: %v", b, whole, frac, why)
+			}
+			if r2, _ := c21Loud(func() { bal.MustToStorageItemBytes() }); !r2 {
+				t.Fatalf("balance %s: MustToStorageItem refuses but MustToStorageItemBytes does not", b)
+			}
+		} else {
+			wantVer := byte(states.DefaultVersion)
+			if hasFrac {
+				wantVer = states.ScaleDecimal9Version
+			}
+			raw := item.ToArray()
+			var it2 states.StorageItem
+			if err := it2.Deserialization(common.NewZeroCopySource(append([]byte{}, raw...))); err != nil {
+				t.Fatalf("balance %s: storage item %x does not decode: %v", b, raw, err)
+			}
+			back, err := states.NativeTokenBalanceFromStorageItem(&it2)
+			if err != nil || back.Balance.BigInt().Cmp(b) != 0 {
+				t.Fatalf("balance %s (whole part %s, fractional part %s) stored as version-%d item %x reads back as %s (err %v): value silently changed",
+					b, whole, frac, item.StateVersion, item.Value, back.String(), err)
+			}
+			if fits && item.StateVersion != wantVer {
+				t.Fatalf("balance %s stored with version %d, want %d", b, item.StateVersion, wantVer)
+			}
+			switch item.StateVersion {
+			case states.DefaultVersion:
+				want := make([]byte, 8)
+				for i := range want {
+					want[i] = byte(whole.Uint64() >> (8 * uint(i)))
+				}
+				if hasFrac || !bytes.Equal(item.Value, want) {
+					t.Fatalf("balance %s: version-0 item value %x, want the whole part %s as 8 little-endian bytes", b, item.Value, whole)
+				}
+			case states.ScaleDecimal9Version:
+				if !bytes.Equal(item.Value, refNeoBytes(b)) {
+					t.Fatalf("balance %s: version-1 item value %x, reference shortest two's complement %x", b, item.Value, refNeoBytes(b))
+				}
+			default:
+				t.Fatalf("balance %s stored with unknown version %d", b, item.StateVersion)
+			}
+			if !bytes.Equal(bal.MustToStorageItemBytes(), raw) || !bytes.Equal(back.MustToStorageItemBytes(), raw) {
+				t.Fatalf("balance %s has two encodings", b)
+			}
+			ev.Class(fmt.Sprintf("bal:item:v%d", item.StateVersion))
+		}
+
+		// FromInteger is the inverse of MustToInteger64 on non-fractional balances
+		if fits {
+			fi := states.NativeTokenBalanceFromInteger(whole.Uint64())
+			if fi.Balance.BigInt().Cmp(new(big.Int).Mul(whole, c21Scale)) != 0 || fi.IsFloat() || fi.FloatPart() != 0 || fi.MustToInteger64() != whole.Uint64() {
+				t.Fatalf("NativeTokenBalanceFromInteger(%s) = %s", whole, fi.String())
+			}
+			if !hasFrac && fi.Balance.BigInt().Cmp(b) != 0 {
+				t.Fatalf("NativeTokenBalanceFromInteger(MustToInteger64(%s)) = %s", b, fi.String())
+			}
+		}
+		near := new(big.Int).Sub(whole, c21Two64)
+		ev.Case(hasFrac || near.Cmp(big.NewInt(-3)) >= 0, "bal "+b.String())
+	})
+}
+
+// TestC21_BalanceItemDecode: hand-built storage items of every version.
+func TestC21_BalanceItemDecode(t *testing.T) {
+	ev := harn.For("C21").Rule(c21BalRule)
+	ev.Floor("item:v0:ok", "item", 0.10)
+	ev.Floor("item:v1:ok", "item", 0.10)
+	ev.Floor("item:rejected", "item", 0.10)
+	harn.Check(t, 30000, 2000000, func(t *rapid.T) {
+		ver := rapid.SampledFrom([]byte{0, 0, 0, 1, 1, 1, 2, 0xFF}).Draw(t, "version")
+		if ver == 2 {
+			ver = rapid.Byte().Draw(t, "anyVersion")
+		}
+		var val []byte
+		switch rapid.IntRange(0, 3).Draw(t, "valueKind") {
+		case 0: // exactly a uint64
+			val = make([]byte, 8)
+			x := rapid.OneOf(rapid.Uint64(), rapid.Uint64Range(0, 5), rapid.Just(^uint64(0)), rapid.Just(uint64(1)<<63)).Draw(t, "u64")
+			for i := range val {
+				val[i] = byte(x >> (8 * uint(i)))
+			}
+		case 1: // any length around 8
+			val = rapid.SliceOfN(rapid.Byte(), 0, 12).Draw(t, "val")
+		case 2: // shortest two's complement of a boundary integer (negative ones included)
+			if rapid.IntRange(0, 3).Draw(t, "neg") == 0 {
+				val = refNeoBytes(genBig(20).Draw(t, "big"))
+			} else {
+				val = refNeoBytes(c21GenBalance(t))
+			}
+		default: // non-minimal two's complement: sign-extended
+			v := genBig(12).Draw(t, "big")
+			val = refNeoBytes(v)
+			pad := byte(0)
+			if v.Sign() < 0 {
+				pad = 0xFF
+			}
+			val = append(val, bytes.Repeat([]byte{pad}, rapid.IntRange(1, 3).Draw(t, "pad"))...)
+		}
+		item := &states.StorageItem{StateBase: states.StateBase{StateVersion: ver}, Value: val}
+		// through the wire form of the storage item
+		var it2 states.StorageItem
+		if err := it2.Deserialization(common.NewZeroCopySource(item.ToArray())); err != nil || it2.StateVersion != ver || !bytes.Equal(it2.Value, val) {
+			t.Fatalf("storage item version %d value %x does not survive ToArray/Deserialization (err %v)", ver, val, err)
+		}
+		var bal states.NativeTokenBalance
+		var err error
+		if p, why := c21Loud(func() { bal, err = states.NativeTokenBalanceFromStorageItem(&it2) }); p {
+			t.Fatalf("NativeTokenBalanceFromStorageItem(version %d, value %x) panicked: %v", ver, val, why)
+		}
+		ev.Class("item")
+		nontrivial := false
+		switch {
+		case ver == states.DefaultVersion:
+			if (err == nil) != (len(val) >= 8) {
+				t.Fatalf("version-0 item with a %d-byte value %x: err = %v", len(val), val, err)
+			}
+			if err == nil {
+				want := new(big.Int).Mul(new(big.Int).SetUint64(c18LE(val[:8])), c21Scale)
+				if bal.Balance.BigInt().Cmp(want) != 0 {
+					t.Fatalf("version-0 item %x decodes to %s, reference %s", val, bal.String(), want)
+				}
+			}
+		default: // version 1 (every non-zero version is read as the scaled form)
+			want := refFromNeo(val)
+			if (err == nil) != (want.Sign() >= 0) {
+				t.Fatalf("version-%d item %x holds %s: err = %v", ver, val, want, err)
+			}
+			if err == nil && bal.Balance.BigInt().Cmp(want) != 0 {
+				t.Fatalf("version-%d item %x decodes to %s, reference %s", ver, val, bal.String(), want)
+			}
+		}
+		if err != nil {
+			ev.Class("item:rejected")
+			nontrivial = true
+		} else {
+			if ver <= 1 {
+				ev.Class(fmt.Sprintf("item:v%d:ok", ver))
+			} else {
+				ev.Class("item:vOther:ok")
+			}
+			// an accepted value re-encodes (or is refused: whole part >= 2^64 without fraction) and the
+			// canonical item decodes to the same value
+			b := bal.Balance.BigInt()
+			whole, frac := new(big.Int).QuoRem(b, c21Scale, new(big.Int))
+			var canon *states.StorageItem
+			refused, why := c21Loud(func() { canon = bal.MustToStorageItem() })
+			if refused {
+				if frac.Sign() != 0 || whole.IsUint64() {
+					t.Fatalf("decoded balance %s is representable but MustToStorageItem refused: %v", b, why)
+				}
+				ev.Class("item:reencode-refused")
+			} else {
+				back, err := states.NativeTokenBalanceFromStorageItem(canon)
+				if err != nil || back.Balance.BigInt().Cmp(b) != 0 {
+					t.Fatalf("balance %s decoded from version-%d item %x re-encodes as version-%d item %x which reads as %s (err %v)", b, ver, val, canon.StateVersion, canon.Value, back.String(), err)
+				}
+				if canon.StateVersion != ver || !bytes.Equal(canon.Value, val) {
+					ev.Class("item:noncanonical-accepted")
+					nontrivial = true
+				}
+			}
+		}
+		ev.Case(nontrivial, fmt.Sprintf("item v%d %x", ver, val))
 	})
 }
